@@ -22,6 +22,21 @@ STUB = ["kernel boundary: counting io.FileIO + os proxy (crashfs)", "reactor/clo
 ASSUMPTIONS = ["kill -9 model: a system call is atomic w.r.t. the kill; no torn single write"]
 DESIGN_REF = "DESIGN.md §2.6, §4 C29"
 
-generate = crashsim.gen_case
-execute = crashsim.execute
-shrink = crashsim.shrink
+def generate(seed, tier):
+    if seed % 40 == 13:
+        from engines import storesim
+        return storesim.gen_huge(seed, tier, "C29")       # sparse shares around the 4 GiB mark: restarts (re-open) and lease-only operations
+    return crashsim.gen_case(seed, tier)
+
+
+def execute(case):
+    if case.get("profile") == "huge":
+        from engines import storesim
+        return storesim.exec_huge(case)
+    return crashsim.execute(case)
+
+
+def shrink(case):
+    if case.get("profile") == "huge":
+        return iter(())
+    return crashsim.shrink(case)
